@@ -1,5 +1,6 @@
 import Driver.Util
 import ProcSim.Model.Loader
+import ProcSim.Model.LoaderMsg
 import ProcSim.Spec.Loader
 /-!
 # Loader component of `psdriver`: ops `"load"` and `"mkproc"`
@@ -23,13 +24,16 @@ Answer
  "defects":[class names of `Spec.defects`],
  -- with "impl":
  "k":{"C09":b,"C10":b,"C11":b,"C12":b}, "o":{"C09":null|clause,…}, "app":{"C09":b,…},
- "info":{"classEq":b,"implClass":s|null}}
+ "info":{"classEq":b,"implClass":s|null,"msgEq":b,"msgModelled":b}}
 ```
 K (model vs implementation, projection-wise):
 * C09: same accept/reject bit, and when both accept: same units (name, width, capabilities, locks, predecessors as sets).
 * C10: same accept/reject bit, and when both accept: the full canonical processor (also memory ACLs) and the four port classes as sets.
 * C11: same accept/reject bit, and when both reject: the implementation's class equals the model's or is among
-  `Spec.defects` (the order of independent checks is not part of the property).
+  `Spec.defects` (the order of independent checks is not part of the property), and the implementation's message is
+  one of the model's texts (`LoadError.messages`, Model/LoaderMsg.lean) for the implementation's *own* fields — so the
+  comparison does not depend on which culprit was chosen (`msgEq`; both sides cut to the 2000 characters the harness
+  transmits; not compared, `msgModelled = false`, when a bad-edge element has a non-ASCII character).
 * C12: when the implementation accepts: its internal order is sink-first; when both accept: the four port classes
   agree as sets and the output-port order is the same.
 O (checker on the implementation's output): `Spec.checkC09/10/11/12`; C11 additionally checks that the message
@@ -186,6 +190,11 @@ def fieldStrings : LoadError S → List String
 
 def fieldsInMessage (e : LoadError S) (msg : String) : Bool := (fieldStrings e).all (contains msg)
 
+/-- the implementation's text is one of the model's candidate texts for the implementation's own fields
+(the harness transmits `str(exc)[:2000]`) -/
+def messageMatches (e : LoadError S) (msg : String) : Bool :=
+  (e.messages id).any (fun m => String.ofList (m.toList.take 2000) == msg)
+
 /-! ### op `load` -/
 
 def encResult (r : Except (LoadError S) (Proc S)) : Json :=
@@ -249,7 +258,13 @@ def opLoad (j : Json) : Except String Json := do
       let classIn := match e with
         | some ie => decide (ie.cls ∈ defs)
         | none => false
-      let k11 := rejectEq && (classEq || classIn)
+      let msgModelled := match e with
+        | some ie => ie.msgModelled id
+        | none => false
+      let msgEq := match e with
+        | some ie => !ie.msgModelled id || messageMatches ie msg
+        | none => true
+      let k11 := rejectEq && (classEq || classIn) && msgEq
       let o11 := match e with
         | none => some ("C11.class: unexpected exception class " ++ cls)
         | some ie =>
@@ -260,7 +275,8 @@ def opLoad (j : Json) : Except String Json := do
         [("k", props (fun k => Json.bool (match k with | "C11" => k11 | "C12" => true | _ => rejectEq))),
          ("o", props (fun k => encOpt (match k with | "C11" => o11 | _ => none))),
          ("app", props (fun k => Json.bool (match k with | "C11" => true | _ => false))),
-         ("info", Json.mkObj [("classEq", Json.bool classEq), ("implClass", Json.str cls)])])
+         ("info", Json.mkObj [("classEq", Json.bool classEq), ("implClass", Json.str cls),
+                              ("msgEq", Json.bool msgEq), ("msgModelled", Json.bool msgModelled)])])
 
 /-! ### op `mkproc` -/
 
